@@ -70,6 +70,9 @@ pub fn reference(ctx: &Ctx, f: &dyn Fmt) -> R<Option<Reference>> {
 
 fn check_read_outcome(ctx: &Ctx, f: &dyn Fmt, r: &ROut, truth: &[Row], what: &str, hard_fired: bool) -> R {
     let name = f.name();
+    if let Some(v) = &r.sim_violation {
+        return Err(v.clone());
+    }
     if r.hang() {
         bail_v!(ctx, "hang", &format!("{name}.reader/{what}"), "reader kept calling the source more than {} times after end of data", simcore::io::EOF_CALL_BUDGET);
     }
@@ -95,6 +98,9 @@ fn write_benign_at(ctx: &Ctx, f: &dyn Fmt, rf: &Reference, k: usize, short: bool
     let plan = if short { Plan::short_at(k) } else { Plan::interrupted_at(k) };
     let sink = SimSink::new(ctx, plan);
     let w = f.write(ctx, sink.clone(), Post::IntoInner);
+    if let Some(v) = &w.sim_violation {
+        return Err(v.clone());
+    }
     ctx.count("executions", 1);
     let st = sink.state();
     let fired = if short { st.short_fired > 0 } else { st.intr_fired > 0 };
@@ -131,6 +137,9 @@ pub fn write_fault_sweep(ctx: &Ctx, f: &dyn Fmt, rf: &Reference) -> R {
         plan.zero_write = variant >= 4;
         let sink = SimSink::new(ctx, plan);
         let w = f.write(ctx, sink.clone(), post);
+        if let Some(v) = &w.sim_violation {
+            return Err(v.clone());
+        }
         ctx.count("executions", 1);
         let st = sink.state();
         let fired = st.hard_fired > 0;
@@ -269,6 +278,9 @@ pub fn benign_part(ctx: &Ctx, f: &dyn Fmt, rf: &Reference) -> R {
     let intr = ctx.chance(1, 2, "benign.interrupted");
     let sink = SimSink::new(ctx, Plan::benign(rate, intr));
     let w = f.write(ctx, sink.clone(), Post::IntoInner);
+    if let Some(v) = &w.sim_violation {
+        return Err(v.clone());
+    }
     ctx.count("executions", 1);
     let data = f.normalise(ctx, sink.data());
     if w.api_ok {
